@@ -1,4 +1,4 @@
 import SA.Model.Pipe
 namespace SA.Drv.Pipe
-def entries : List (String × (List String → String)) := [("pipe", SA.Pipe.handle), ("life", SA.Pipe.handleLife)]
+def entries : List (String × (List String → String)) := [("pipe", SA.Pipe.handle), ("life", SA.Pipe.handleLife), ("burst", SA.Pipe.handleBurst)]
 end SA.Drv.Pipe
